@@ -78,6 +78,9 @@ func main() {
 		return v
 	}
 	m := newMachine(*out, *prop, *seed, 4, 3)
+	if thorough {
+		m.giantMax = 6
+	}
 	if *scenario != "" {
 		if err := runScenario(m, *scenario); err != nil {
 			fmt.Fprintln(os.Stderr, "harness: scenario:", err)
